@@ -107,7 +107,11 @@ type Step struct {
 	Arg   string          `json:"arg,omitempty"`  // builtin argument
 	NoPar bool            `json:"nopar,omitempty"`
 	Raw   json.RawMessage `json:"raw,omitempty"` // explicit parameters object instead of the tagged payload
-	N     int             `json:"n,omitempty"`   // yield: rounds
+	N     int             `json:"n,omitempty"`   // yield: rounds; sleep: milliseconds
+	// TO: the reply is made under a context derived from the handler's with this timeout (ms), released right after
+	TO int `json:"to_ms,omitempty"`
+	// RawKind: the reply value is an empty json.RawMessage ("empty"), a nil one ("nil"), a nil *json.RawMessage ("nilptr") or one holding a lone brace ("invalid")
+	RawKind string `json:"rawkind,omitempty"`
 }
 
 type CallScript struct {
@@ -197,12 +201,30 @@ func (d *ScriptDisp) VarlinkDispatch(ctx context.Context, c varlink.Call, method
 				par = stepPayload(cs.ID, i, cs.Pad)
 			}
 		}
+		switch st.RawKind {
+		case "empty":
+			par = json.RawMessage{}
+		case "nil":
+			par = json.RawMessage(nil)
+		case "nilptr":
+			par = (*json.RawMessage)(nil)
+		case "invalid":
+			par = json.RawMessage("{")
+		}
+		rctx, rcancel := ctx, context.CancelFunc(func() {})
+		if st.TO > 0 {
+			rctx, rcancel = context.WithTimeout(ctx, time.Duration(st.TO)*time.Millisecond)
+		}
 		switch st.Op {
+		case "sleep":
+			rcancel()
+			time.Sleep(time.Duration(st.N) * time.Millisecond)
+			continue
 		case "reply":
 			c.Continues = st.Cont
-			err = c.Reply(ctx, par)
+			err = c.Reply(rctx, par)
 		case "error":
-			err = c.ReplyError(ctx, st.Name, par)
+			err = c.ReplyError(rctx, st.Name, par)
 		case "badreply":
 			// a handler bug: a value that cannot be encoded as JSON; Reply reports an error, nothing goes out
 			err = c.Reply(ctx, map[string]interface{}{"x": math.NaN()})
@@ -234,6 +256,7 @@ func (d *ScriptDisp) VarlinkDispatch(ctx context.Context, c varlink.Call, method
 		default:
 			continue
 		}
+		rcancel()
 		d.Log.add(Ev{Kind: "step", Peer: peer, CallID: cs.ID, Step: i, Res: resString(err)})
 	}
 	if cs.Fail {
